@@ -233,6 +233,24 @@ CHECKS.update({
         design="4 C16"),
 })
 
+CHECKS.update({
+    "C14": dict(
+        text="Repair.tla models the requester (checks in code order), the per-hash repaired store and the responder over the "
+             "ideal-hash Merkle spec. TLC checks StoredOnlyIfHashMatches, ProvenRootsAreTrue, NoPanic, Progressable, NoCorruption, "
+             "UnsolicitedIgnored, GoodAnswersVerify, InvalidChangesNothing on the transition graph with a good and a hostile "
+             "responder (valid/replay, NACK, other variant, wrong / aliased / beyond index, wrong root, corrupted proof, other "
+             "block, shred of another group/slice/slot/block, foreign signature, altered payload, flipped last-flag twin, "
+             "unsolicited), decides GoodPeerEventuallyCompletes by deadlock checking on the budgeted finite DAG, and requires the "
+             "transcription of the pre-repair code to violate them. Every transition is replayed through hooks into the real "
+             "Repair, BlockstoreImpl and RepairRequestHandler::run task (requests on the wire, Block events, panics, projected "
+             "state, answers verified with the real check_proof(_last)/ValidatedShred); responder cases and hostile scripts run "
+             "through the real handlers and the real repair_loop with its timers.",
+        note="blocks of 1-3 slices, shreds in groups, one block under repair; oldest-first timeout order and concurrent repairs not "
+             "covered; hash / signature breaks out of scope; " + TB,
+        technique="TLA+ spec + TLC exhaustive BFS (safety, action properties, deadlock-based progress) + spec->code transition / case / script replay",
+        design="4 C14"),
+})
+
 NOT_YET = {
     "C01": "check not built yet in this round (abstract protocol model + simulator planned, DESIGN 4 C01)",
     "C02": "check not built yet in this round (DESIGN 4 C02)",
